@@ -89,10 +89,15 @@ class F:
         self.buf = b""
         self.pos = 0
         fs.op("open", path, mode)
-        if "w" in mode:
+        if "x" in mode and path in fs.vol:
+            raise FileExistsError(errno.EEXIST, "file exists", path)
+        if "w" in mode or "x" in mode:
             fs.vol[path] = b""
             fs.dur.setdefault(path, b"")
             fs.dur[path] = b""
+        elif "a" in mode:
+            fs.vol.setdefault(path, b"")
+            fs.dur.setdefault(path, b"")
         elif path not in fs.vol:
             raise FileNotFoundError(errno.ENOENT, "no such file", path)
 
@@ -113,7 +118,7 @@ class F:
         self._flush()
 
     def _flush(self):
-        if "w" in self.mode:
+        if "w" in self.mode or "x" in self.mode or "a" in self.mode:
             self.fs.vol[self.path] = self.fs.vol.get(self.path, b"") + self.buf
             self.buf = b""
 
@@ -171,7 +176,8 @@ class OsProxy:
         self.fs = fs
         self.path = types.SimpleNamespace(
             realpath=lambda p: fs.resolve(p), isfile=self._isfile, dirname=os.path.dirname, splitext=os.path.splitext,
-            basename=os.path.basename)
+            basename=os.path.basename, join=os.path.join, abspath=lambda p: p, islink=lambda p: p in fs.links,
+            exists=lambda p: fs.resolve(p) in fs.vol, getsize=lambda p: len(fs.vol[fs.resolve(p)]))
 
     def _isfile(self, p):
         self.fs.op("isfile", p)
@@ -181,6 +187,8 @@ class OsProxy:
         return True
 
     def fsync(self, fd):
+        if fd[0] == "dirfd":
+            return                  # metadata operations are durable at once in this model
         self.fs.op("fsync", fd[1])
         self.fs.dur[fd[1]] = self.fs.vol[fd[1]]
 
@@ -191,6 +199,37 @@ class OsProxy:
         self.fs.links.pop(b, None)          # renaming onto a symbolic link replaces the link itself
         self.fs.vol[b] = self.fs.vol.pop(a)
         self.fs.dur[b] = self.fs.dur.pop(a, b"")
+
+    def replace(self, a, b):
+        """os.replace: on POSIX the same as rename."""
+        return self.rename(a, b)
+
+    def unlink(self, a):
+        return self.remove(a)
+
+    def link(self, a, b):
+        """Hard link: b becomes another name for a's content (modelled as a copy made at this moment)."""
+        self.fs.op("link", a, self.fs.label(b))
+        a = self.fs.resolve(a)
+        if a not in self.fs.vol:
+            raise FileNotFoundError(errno.ENOENT, "no such file", a)
+        if b in self.fs.vol:
+            raise FileExistsError(errno.EEXIST, "file exists", b)
+        self.fs.vol[b] = self.fs.vol[a]
+        self.fs.dur[b] = self.fs.dur.get(a, b"")
+
+    def open(self, p, flags=0, mode=0o777):
+        """os.open is only meaningful here for directories (directory fsync)."""
+        if p == "" or not str(p).startswith("/virt"):
+            raise FileNotFoundError(errno.ENOENT, "no such file or directory", p)
+        return ("dirfd", p)
+
+    def close(self, fd):
+        return None
+
+    def __getattr__(self, name):
+        # everything that does not touch files (getpid, sep, environ, ...) is the real thing
+        return getattr(os, name)
 
     def remove(self, a):
         self.fs.op("remove", a)
